@@ -203,6 +203,7 @@ type treeOpts struct {
 	Bulk     bool // allow one boundary-size bulk node
 	NoDeep   bool
 	ASCIIMax int
+	DeepMax  int // cap of the dedicated deep-chain class (default 300 quick / 2000 thorough)
 	VarPct   int // probability (percent) that a value position becomes a variable (default 20)
 }
 
@@ -254,7 +255,13 @@ func genTree(t *rapid.T, o treeOpts, nm *namer) *model.Node {
 		if isThorough() {
 			maxd = 2000
 		}
+		if o.DeepMax > 0 {
+			maxd = o.DeepMax
+		}
 		d := rapid.IntRange(10, maxd).Draw(t, "chainDepth")
+		if d == maxd {
+			stats.exclude("deep-chain-depth-cap-binds")
+		}
 		leaf := g.leaf(t)
 		for i := 0; i < d; i++ {
 			leaf = &model.Node{Kind: model.L, Children: []model.Child{{Node: leaf}}}
